@@ -112,6 +112,29 @@ def specLookup (tbl : List Asg) (loc : Bytes) : Option Bytes :=
     | some (n, a) => some (a.data ++ loc.drop n ++ [NUL])
     | none => none
 
+/-! ## what a nughde record says (the six NUL-terminated fields), read declaratively -/
+
+/-- a numeric field as qmail-lspawn uses it: the value of its leading decimal digits (0 if there are none), as a 32-bit
+    `uid_t`/`gid_t` -/
+def specNum (b : Bytes) : Nat := decVal (b.takeWhile isDigit) % 4294967296
+
+/-- split at EVERY NUL: six NUL-terminated fields are seven or more pieces; user, uid, gid, home, dash, ext are the
+    first six; whatever follows the sixth NUL is ignored; fewer than six NULs = malformed.
+    Independent of the model's `splitNul`/`scanUlong` loops (`C11_record_parse`: `parseNughde = specRecord`). -/
+def specRecord (r : Bytes) : Option Ident :=
+  match splitOn NUL r with
+  | u :: ui :: gi :: ho :: da :: ex :: _ :: _ => some ⟨u, specNum ui, specNum gi, ho, da, ex⟩
+  | _ => none
+
+/-- the argument list qmail-lspawn must hand to qmail-local, written from qmail-local(8)
+    (`qmail-local [-nN] user homedir local dash ext domain sender defaultdelivery`; qmail-lspawn passes `--` for the
+    options and its own argument `aliasempty` as the default delivery) — spelled out here, NOT taken from the model's
+    `argvOf` (that the two agree is `C11_argv_layout`) -/
+def specArgv (env : Env) (id : Ident) (loc dom sender : Bytes) : List Bytes :=
+  [[98, 105, 110, 47, 113, 109, 97, 105, 108, 45, 108, 111, 99, 97, 108],   -- "bin/qmail-local"
+   [45, 45],                                                                -- "--"
+   id.user, id.home, loc, id.dash, id.ext, dom, sender, env.aliasempty]
+
 /-! ## the password-file rules (qmail-getpw.9) -/
 
 inductive Acct
@@ -155,6 +178,61 @@ def specGetpw (db : PwDb) (loc : Bytes) : GpwRes :=
     | some pw => if pw.busy then .exit QLX_NOALIAS else .out (pwLine pw [45] loc)
     | none => .exit QLX_NOALIAS
 
+/-! ## the composed identity: the assignment table first, or else the password-file rules -/
+
+/-- what the tables say about an address -/
+inductive Want
+  | table (r : Bytes)      -- users/assign covers it: this record
+  | passwd (r : Bytes)     -- it does not (or there is no users/cdb): qmail-getpw prints this record
+  | fail (code : Nat)      -- the password-file lookup fails with this exit code
+deriving Repr, BEq, DecidableEq
+
+/-- `tbl` = the declarative reading of the users/assign that users/cdb was compiled from (`none`: no users/cdb) -/
+def specIdentity (tbl : Option (List Asg)) (pw : PwDb) (loc : Bytes) : Want :=
+  match tbl.bind (fun t => specLookup t loc) with
+  | some r => .table r
+  | none =>
+    match specGetpw pw loc with
+    | .out b => .passwd b
+    | .exit c => .fail c
+
+def Want.record? : Want → Option Bytes
+  | .table r => some r
+  | .passwd r => some r
+  | .fail _ => none
+
+/-- users/cdb is absent (`tbl = none`), or it is the file qmail-newu compiles (below the format's 4 GiB limit) from a
+    users/assign whose declarative reading is `tbl` -/
+def Installed (env : Env) : Option (List Asg) → Prop
+  | none => env.cdb = none
+  | some t => ∃ assign f, env.cdb = some f ∧ newuFile assign = some f ∧ f.length < 4294967296 ∧ specParse assign = some t
+
+/-- the calls of the forked child that runs qmail-getpw when nothing fails: nofiles group, qmailp user, then the exec -/
+def gpwEvents (env : Env) (loc : Bytes) : List Ev :=
+  [.g (.setgroups 1 env.gidn true), .g (.setgid env.gidn true), .g (.setuid env.uidp true),
+   .g (.execv [98, 105, 110, 47, 113, 109, 97, 105, 108, 45, 103, 101, 116, 112, 119] [[98, 105, 110, 47, 113, 109, 97, 105, 108, 45, 103, 101, 116, 112, 119], loc])]
+
+/-- the events of the lookup: nothing for a table hit, the qmail-getpw child otherwise -/
+def Want.events (env : Env) (loc : Bytes) : Want → List Ev
+  | .table _ => []
+  | _ => gpwEvents env loc
+
+/-- the complete behaviour of the delivery child when no call fails, as the tables dictate it: the lookup's events, then
+    (for a well-formed record) stdin/stdout/stderr, the privilege drop to exactly the record's gid and uid, the check that
+    the process is not root, and qmail-local with `specArgv`; uid 0 ⇒ exit QLX_ROOT before any exec; a malformed record
+    ⇒ QLX_USAGE; a failing password-file lookup ⇒ its exit code -/
+def specChild (env : Env) (w : Want) (sender loc dom : Bytes) : List Ev × Outcome :=
+  let pre := Ev.chdir env.autoQmail :: w.events env loc
+  match w with
+  | .fail c => (pre, .exit c)
+  | .table r | .passwd r =>
+    match specRecord r with
+    | none => (pre, .exit QLX_USAGE)
+    | some id =>
+      let drop := [Ev.fdmove 0, .fdmove 1, .fdcopy 2, .setgroups 1 id.gid true, .setgid id.gid true, .setuid id.uid true, .getuid id.uid]
+      if id.uid = 0 then (pre ++ drop, .exit QLX_ROOT)
+      else (pre ++ drop ++ [.execv localPath (specArgv env id loc dom sender)], .exec)
+
 /-! ## the trace predicate: drop privileges in order, never root -/
 
 def isExecLocal : Ev → Bool
@@ -170,7 +248,7 @@ def execGuarded (id : Ident) : List Ev → Bool
 
 /-- an execv of qmail-local is guarded and carries exactly the argv of `id`; other events are fine -/
 def execOk (env : Env) (id : Ident) (loc dom sender : Bytes) (pre : List Ev) : Ev → Bool
-  | .execv p a => if p == localPath then execGuarded id pre && a == argvOf env id loc dom sender else true
+  | .execv p a => if p == localPath then execGuarded id pre && a == specArgv env id loc dom sender else true
   | _ => true
 
 /-- every execv of qmail-local in the trace is guarded and carries exactly the argv of `id` -/
